@@ -18,7 +18,7 @@ RULE = ('E1 enumeration of LAT=2 decks: regular hexagons (2 pitches x 3 rotation
         'asymmetric fill arrays; oracle: hexagon by half-plane clipping (independent of the converter), '
         'a1 = mid(side 1) - mid(side 2), a2 = mid(side 3) - mid(side 4), a3 across the seventh plane, '
         'lattice semantics as C06, complete plane-arrangement witnesses; non-trivial = at least three '
-        'different owners; distinct = deck text + options; also: third plane adjacent to the first or two sides further on, grouping of the listing, RHP/HEX-bounded cells, a single storey other than 0 (third range 1:1)')
+        'different owners; distinct = deck text + options; also: third plane adjacent to the first or two sides further on, grouping of the listing, RHP/HEX-bounded cells, a single storey other than 0 (third range 1:1), end planes oblique to the prism axis')
 ASSUMPTIONS = [
     'MCNP hexagonal lattice convention: [1,0,0] beyond the 1st listed plane, [0,1,0] beyond the 3rd, '
     '[-1,1,0] beyond the 5th or 6th (the last two side planes may be listed in either order), [0,0,1] beyond the 7th',
